@@ -347,6 +347,11 @@ func symConfig() symCfg {
 	return c
 }
 
+// concreteConfig: for harnesses whose subject does not depend on the configuration
+func concreteConfig() symCfg {
+	return symCfg{localID: 0x0a000001, localAS: 65000, remoteAS: 65001, holdSec: 90}
+}
+
 func mkPeer(c symCfg, pl Plugin) *peer {
 	o := defaultPeerOptions()
 	o.holdTime = time.Duration(c.holdSec) * time.Second
